@@ -322,7 +322,7 @@ def stream_elide(seed, n, max_obj=4, max_mix=8):
     """contract-respecting histories in which some recorded handles are removed with `take`
     (no `unadopt`) and then kept or dropped: the C13 quantifier"""
     rng = random.Random(seed ^ 0xE11D)
-    alpha = CONTRACT_ALPHA + ["take"] * 6
+    alpha = CONTRACT_ALPHA + ["take"] * 6 + ["tryUnwrap", "makeMut", "downgrade"]
     for i in range(n):
         e = Est()
         shape = rng.choice(SHAPES[:9])
